@@ -2201,7 +2201,7 @@ theorem sliceLoop_writeDocsP (F : ExtFloat) (P : List Nat → Prop) (hP : F.Fixe
 def doneF (stk : List Nat) (r : List Nat) : Except Err (List Nat) :=
   match stk with
   | [] => .ok r
-  | _ :: _ => igAfter stk r true
+  | frame :: up => igAfter frame up r true
 
 theorem igValue_eq (stk bs : List Nat) : igValue stk bs =
     match skipWs bs with
@@ -2226,8 +2226,8 @@ theorem igValue_eq (stk bs : List Nat) : igValue stk bs =
       | .quote => match ignoreStr r with
         | .error e => .error e
         | .ok r' => doneF stk r'
-      | .lbrack => igAfter (0x5B :: stk) r false
-      | .lbrace => igAfter (0x7B :: stk) r false
+      | .lbrack => igAfter 0x5B stk r false
+      | .lbrace => igAfter 0x7B stk r false
       | .other => .error .expectedValue := by
   rw [igValue.eq_def]
   unfold doneF
@@ -2254,7 +2254,7 @@ def nextF (frame : Nat) (up : List Nat) (bs' : List Nat) : Except Err (List Nat)
         | c3 :: r3 => if c3 ≠ 0x3A then .error .expectedColon else igValue (frame :: up) r3
   else igValue (frame :: up) bs'
 
-theorem igAfter_eq (frame : Nat) (up bs : List Nat) (acc : Bool) : igAfter (frame :: up) bs acc =
+theorem igAfter_eq (frame : Nat) (up bs : List Nat) (acc : Bool) : igAfter frame up bs acc =
     match skipWs bs with
     | [] => .error (if frame = 0x5B then .eofList else .eofObject)
     | c :: r =>
@@ -2440,16 +2440,16 @@ theorem ignore_write_all (F : ExtFloat) :
     (∀ v, wellFormed v = true → ∀ stk rest, (isIntVal v = true → numEnd rest = true) →
       igValue stk (write F v ++ rest) = doneF stk rest) ∧
     (∀ first es, wellFormedEntries es = true → ∀ up rest,
-      igAfter (0x7B :: up) (writeEntries F first es ++ 0x7D :: rest) (!first) = doneF up rest) ∧
+      igAfter 0x7B up (writeEntries F first es ++ 0x7D :: rest) (!first) = doneF up rest) ∧
     (∀ first xs, wellFormedList xs = true → ∀ up rest,
-      igAfter (0x5B :: up) (writeElems F first xs ++ 0x5D :: rest) (!first) = doneF up rest) := by
+      igAfter 0x5B up (writeElems F first xs ++ 0x5D :: rest) (!first) = doneF up rest) := by
   apply write.mutual_induct
     (motive_1 := fun v => wellFormed v = true → ∀ stk rest, (isIntVal v = true → numEnd rest = true) →
       igValue stk (write F v ++ rest) = doneF stk rest)
     (motive_2 := fun first es => wellFormedEntries es = true → ∀ up rest,
-      igAfter (0x7B :: up) (writeEntries F first es ++ 0x7D :: rest) (!first) = doneF up rest)
+      igAfter 0x7B up (writeEntries F first es ++ 0x7D :: rest) (!first) = doneF up rest)
     (motive_3 := fun first xs => wellFormedList xs = true → ∀ up rest,
-      igAfter (0x5B :: up) (writeElems F first xs ++ 0x5D :: rest) (!first) = doneF up rest)
+      igAfter 0x5B up (writeElems F first xs ++ 0x5D :: rest) (!first) = doneF up rest)
   · intro _ stk rest _
     simp [igValue_eq, write, skipWs, isWs, classify, ident]
   · intro _ stk rest _
